@@ -6,7 +6,9 @@ TYPES = {
     "Alpha": ("    #[diplomat::opaque]\n    pub struct Alpha(u8);\n",
               {1: "    impl Alpha {\n        #[diplomat::demo(default_constructor)]\n        pub fn new_alpha(v: u8) -> Box<Alpha> { Box::new(Alpha(v)) }\n"
                   "        pub fn with_beta(&self, b: Beta) -> u16 { b.x as u16 }\n        pub fn gamma(&self) -> Gamma { Gamma::One }\n    }\n",
-               2: "    impl Alpha {\n        pub fn extra(&self, w: &mut DiplomatWrite) {}\n        pub fn again<'a>(&'a self) -> &'a Alpha { self }\n    }\n"}),
+               # the second impl block carries attributes of its own: they belong to THIS block only, wherever it stands
+               2: "    #[diplomat::abi_rename = \"pfx_{0}\"]\n    #[diplomat::attr(*, rename = \"rn_{0}\")]\n"
+                  "    impl Alpha {\n        pub fn extra(&self, w: &mut DiplomatWrite) {}\n        pub fn again<'a>(&'a self) -> &'a Alpha { self }\n    }\n"}),
     "Beta": ("    pub struct Beta {\n        pub x: u8,\n        pub y: u16,\n        pub g: Gamma,\n    }\n",
              {1: "    impl Beta {\n        pub fn sum(self) -> u16 { self.y }\n        pub fn make(x: u8) -> Beta { Beta { x, y: 1, g: Gamma::Two } }\n    }\n"}),
     "Gamma": ("    pub enum Gamma {\n        One,\n        Two = 5,\n    }\n",
